@@ -2248,6 +2248,22 @@ func (x *Exec) checkFrame(st *State) {
 		}
 		if len(goals) > 0 {
 			tags := frameTags
+			if x.prop != "" && !hasTag(tags, x.prop) && !strings.HasPrefix(name, "fld_") {
+				// contents of a map written through a struct field the function's modifies clauses
+				// do not name, while the contracts of this property talk about that field
+				for _, f := range st.writeFields[name] {
+					declared := false
+					for _, c := range x.spec.Clauses {
+						if c.Kind == "modifies" && strings.Contains(c.Text, "."+f) {
+							declared = true
+						}
+					}
+					if !declared && x.fieldInContractsOf("fld_x_"+f) {
+						tags = append(tags[:len(tags):len(tags)], x.prop)
+						break
+					}
+				}
+			}
 			if x.prop != "" && !hasTag(tags, x.prop) && x.fieldInContractsOf(name) {
 				// the function writes, outside its declared frame, a struct field that the
 				// contracts of this property talk about: what they say of it rested on the frame
